@@ -207,13 +207,16 @@ class LArr:
                 lst = np.asarray(k)
                 if lst.dtype == bool:
                     lst = np.nonzero(lst)[0]
-                if lst.dtype == object:
-                    lst = arrays.concretize_ints(lst)
-                lst = [builtins.int(v) for v in lst.reshape(-1).tolist()]
-                for v in lst:
+                if lst.ndim != 1:
+                    raise Unsupported("n-d index array on a lazy array")
+                raw = lst.tolist()
+                lst = []
+                for v in raw:
+                    if not isinstance(v, Sym):
+                        v = builtins.int(v)
                     if builtins.bool(or_(n <= v, -n > v)):
                         raise IndexError(f"index {v} is out of bounds for axis {src}")
-                lst = [v + n if v < 0 else v for v in lst]
+                    lst.append((v + n if v < 0 else v) if not isinstance(v, Sym) else ite(v < 0, v + n, v))
                 plan.append(("lst", src, lst))
             else:
                 raise Unsupported(f"LArr index of type {type(k).__name__}")
@@ -838,3 +841,15 @@ FUNCTIONS[np.sum] = reduce_opaque("sum")
 FUNCTIONS[np.median] = reduce_opaque("median")
 FUNCTIONS[np.tile] = tile
 FUNCTIONS[np.reshape] = reshape
+
+
+def _vstack(arrs, **k):
+    parts = []
+    for a in arrs:
+        if not isinstance(a, LArr):
+            a = LArr.from_array(np.atleast_2d(np.asarray(a)))
+        parts.append(a if a.ndim == 2 else a[None, :])
+    return concat(parts, 0)
+
+
+FUNCTIONS[np.vstack] = _vstack
